@@ -5,6 +5,7 @@ import NessaiVerif.Proofs.PoolAcc
 import NessaiVerif.Proofs.PoolFill
 import NessaiVerif.Proofs.PoolHand
 import NessaiVerif.Proofs.PoolRadial
+import Mathlib.Analysis.SpecialFunctions.Exp
 /-
 C09 — proposal pools follow the prior inside the contour and never leave the prior.
 Property theorems only (helper lemmas live in Proofs/Pool*.lean).
@@ -511,5 +512,51 @@ example :
         ⟨1, true, true, true, true, true, .ninf, .fin 0, .fin 0, false, false⟩, g 2], [g 3, g 4]], c ∈ b := by
   intro g
   exact likelihood_args_in_support_ins 2 _ [g 2, g 3] 2 (by decide +kernel)
+
+/-! ### the statistical clause, reduced to its deterministic core
+
+"The pool is distributed as the prior" is a statement about frequencies and is NOT proved as such.  What the rejection step
+contributes to it IS a deterministic identity: a candidate drawn with proposal density `q` and prior density `p` is accepted
+exactly for the uniforms `u` in an initial interval of `[0, 1)` whose length is `(p/q) / w_max`, so the accepted mass at the
+point is `q · (p/q) / w_max = p / w_max` — the prior times a constant that does not depend on the point.  Both facts need
+the normaliser to be (at least) the maximum of the WEIGHTS; with any other normaliser the accepted mass is not proportional
+to the prior (counter-example below: the normaliser `max log p` of seeded change C09-fA).  The uniformity of
+`np.random.rand` (interval length = probability) is the one assumption. -/
+section statistical
+variable {K : Type} [Field K] [LinearOrder K] [IsStrictOrderedRing K]
+
+/-- the log-space acceptance test of the code (see `accepted_iff`) is the linear test `u < w / w_max` -/
+theorem log_accept_iff_linear (lu lw m : ℝ) :
+    lu < lw - m ↔ Real.exp lu < Real.exp lw / Real.exp m := by
+  rw [← Real.exp_sub, Real.exp_lt_exp]
+
+/-- for a weight below the normaliser the accepted uniforms form the initial interval `[0, w / w_max)` of `[0, 1)` -/
+theorem accept_interval (w wmax u : K) (hw : 0 ≤ w) (hle : w ≤ wmax) (hpos : 0 < wmax) :
+    0 ≤ w / wmax ∧ w / wmax ≤ 1 ∧ ((0 ≤ u ∧ u < 1 ∧ u < w / wmax) ↔ (0 ≤ u ∧ u < w / wmax)) := by
+  have h1 : w / wmax ≤ 1 := by rw [div_le_one hpos]; exact hle
+  refine ⟨div_nonneg hw hpos.le, h1, ?_⟩
+  constructor
+  · rintro ⟨a, _, c⟩; exact ⟨a, c⟩
+  · rintro ⟨a, c⟩; exact ⟨a, lt_of_lt_of_le c h1, c⟩
+
+/-- accepted mass at a point = proposal density × length of the acceptance interval = prior / w_max:
+the SAME multiple of the prior at every point -/
+theorem accepted_mass_is_prior (p q wmax : K) (hq : q ≠ 0) :
+    q * ((p / q) / wmax) = p / wmax := by
+  field_simp
+
+/-- with another normaliser `M` (acceptance probability `min 1 (w / M)`) the accepted masses of two points are in general
+NOT in the ratio of their priors: priors 1 and 1/4, proposal densities 1/4 and 1 (weights 4 and 1/4), `M = 1` -/
+theorem accepted_mass_fails_with_other_normaliser :
+    let mass : ℚ → ℚ → ℚ → ℚ := fun p q M => q * min 1 ((p / q) / M)
+    mass 1 (1 / 4) 1 / mass (1 / 4) 1 1 ≠ (1 : ℚ) / (1 / 4) ∧
+      mass 1 (1 / 4) 4 / mass (1 / 4) 1 4 = (1 : ℚ) / (1 / 4) := by
+  norm_num
+
+example : (0 : ℚ) ≤ (1 / 2) / 2 ∧ (1 / 2 : ℚ) / 2 ≤ 1 ∧
+    ((0 ≤ (1 / 8 : ℚ) ∧ (1 / 8 : ℚ) < 1 ∧ (1 / 8 : ℚ) < (1 / 2) / 2) ↔ (0 ≤ (1 / 8 : ℚ) ∧ (1 / 8 : ℚ) < (1 / 2) / 2)) :=
+  accept_interval (1 / 2) 2 (1 / 8) (by norm_num) (by norm_num) (by norm_num)
+
+end statistical
 
 end NessaiVerif.C09
